@@ -189,7 +189,21 @@ pub enum BOp {
     /// decorate(<result id of the k-th function>, LinkageAttributes, "f", Import): a module-level annotation whose
     /// target is the function (not enabled when there is no k-th function)
     DecorateFunction(usize),
+    /// name(<id>, TEXTS[j]) where <id> is the result id of the k-th function (Some(k); not enabled without one) or 999 (None)
+    NameAny(Option<usize>, usize),
+    /// select_function_by_name(TEXTS[j])
+    SelectByText(usize),
+    /// declares the ids begin_function names as result type and function type, with explicit ids: 0: OpTypeVoid %RT and
+    /// OpTypeFunction %RT+1 %RT; 1: OpTypeInt %RT 32 0 and OpTypeFunction %RT+1 %RT %RT; 2: OpTypeFloat %RT 32 and OpTypeFunction %RT+1 %RT
+    DeclareFnTypes(u8),
+    /// a debug / annotation instruction that MENTIONS the result id of the most recent declaration in types_global_values
+    /// (not enabled without one): 0 name, 1 member_name, 2 decorate Block, 3 member_decorate Offset, 4 decorate_string,
+    /// 5 member_decorate_string, 6 entry_point interface id, 7 execution_mode_id operand
+    MentionLastType(u8),
 }
+
+/// names for NameAny / SelectByText: plain, prefixes of each other, multi-byte characters, mangled forms
+pub const TEXTS: [&str; 10] = ["f0", "f1", "f", "gr\u{f6}\u{df}e(f1;", "gr", "gr\u{f6}", "abc", "", "f0(vf4;", "\u{20ac}f0"];
 
 pub fn op_str(o: &BOp) -> String {
     match o {
@@ -473,6 +487,55 @@ pub fn replay(h: &[BOp]) -> Replay {
                     ok = true;
                 }
                 BOp::SelectByName(k) => ok = b.select_function_by_name(&format!("f{}", k)).is_ok(),
+                BOp::SelectByText(j) => ok = b.select_function_by_name(TEXTS[*j]).is_ok(),
+                BOp::NameAny(k, j) => {
+                    let target = match k {
+                        Some(k) => match cur.fns.get(*k).and_then(|f| f.def.as_ref()).and_then(|d| d.rid) {
+                            Some(t) => t,
+                            None => {
+                                disabled = true;
+                                break 'steps;
+                            }
+                        },
+                        None => 999,
+                    };
+                    b.name(target, TEXTS[*j]);
+                    ok = true;
+                }
+                BOp::DeclareFnTypes(kind) => {
+                    match kind {
+                        0 => {
+                            b.type_void_id(Some(RT));
+                            b.type_function_id(Some(RT + 1), RT, vec![]);
+                        }
+                        1 => {
+                            b.type_int_id(Some(RT), 32, 0);
+                            b.type_function_id(Some(RT + 1), RT, vec![RT]);
+                        }
+                        _ => {
+                            b.type_float_id(Some(RT), 32, None);
+                            b.type_function_id(Some(RT + 1), RT, vec![]);
+                        }
+                    }
+                    ok = true;
+                }
+                BOp::MentionLastType(kind) => {
+                    let Some(t) = cur.secs[10].iter().rev().find_map(|i| i.rid) else {
+                        disabled = true;
+                        break 'steps;
+                    };
+                    match kind {
+                        0 => b.name(t, "n"),
+                        1 => b.member_name(t, 0, "m"),
+                        2 => b.decorate(t, spirv::Decoration::Block, vec![]),
+                        3 => b.member_decorate(t, 0, spirv::Decoration::Offset, vec![dr::Operand::LiteralBit32(0)]),
+                        4 => b.decorate_string(t, spirv::Decoration::UserSemantic, vec![dr::Operand::LiteralString("s".into())]),
+                        5 => b.member_decorate_string(t, 0, spirv::Decoration::UserSemantic, vec![dr::Operand::LiteralString("s".into())]),
+                        6 => b.entry_point(spirv::ExecutionModel::GLCompute, t, "e", vec![t]),
+                        _ => b.execution_mode_id(t, spirv::ExecutionMode::LocalSizeId, vec![t, t, t]),
+                    }
+                    ok = true;
+                }
                 BOp::FindReturnBlocks => {
                     let got = b.find_return_block_indices();
                     let want: Vec<usize> = match sf {
@@ -694,16 +757,66 @@ pub fn replay(h: &[BOp]) -> Replay {
                     n.secs[7].push(inst("Name", None, None, vec![Arg::IdRef(fid), Arg::Str(format!("f{}", k))]));
                     Pred::Ok { snap: n, sel, fresh: None }
                 }
-                BOp::SelectByName(k) => {
+                BOp::NameAny(k, j) => {
+                    let mut n = cur.clone();
+                    let target = match k {
+                        Some(k) => cur.fns[*k].def.as_ref().unwrap().rid.unwrap(),
+                        None => 999,
+                    };
+                    n.secs[7].push(inst("Name", None, None, vec![Arg::IdRef(target), Arg::Str(TEXTS[*j].to_string())]));
+                    Pred::Ok { snap: n, sel, fresh: None }
+                }
+                BOp::DeclareFnTypes(kind) => {
+                    let mut n = cur.clone();
+                    match kind {
+                        0 => {
+                            n.secs[10].push(inst("TypeVoid", None, Some(RT), vec![]));
+                            n.secs[10].push(inst("TypeFunction", None, Some(RT + 1), vec![Arg::IdRef(RT)]));
+                        }
+                        1 => {
+                            n.secs[10].push(inst("TypeInt", None, Some(RT), vec![Arg::Lit32(32), Arg::Lit32(0)]));
+                            n.secs[10].push(inst("TypeFunction", None, Some(RT + 1), vec![Arg::IdRef(RT), Arg::IdRef(RT)]));
+                        }
+                        _ => {
+                            n.secs[10].push(inst("TypeFloat", None, Some(RT), vec![Arg::Lit32(32)]));
+                            n.secs[10].push(inst("TypeFunction", None, Some(RT + 1), vec![Arg::IdRef(RT)]));
+                        }
+                    }
+                    Pred::Ok { snap: n, sel, fresh: None }
+                }
+                BOp::MentionLastType(kind) => {
+                    let mut n = cur.clone();
+                    let t = cur.secs[10].iter().rev().find_map(|i| i.rid).unwrap();
+                    match kind {
+                        0 => n.secs[7].push(inst("Name", None, None, vec![Arg::IdRef(t), Arg::Str("n".into())])),
+                        1 => n.secs[7].push(inst("MemberName", None, None, vec![Arg::IdRef(t), Arg::Lit32(0), Arg::Str("m".into())])),
+                        2 => n.secs[9].push(inst("Decorate", None, None, vec![Arg::IdRef(t), Arg::Enum("Decoration", 2)])),
+                        3 => n.secs[9].push(inst("MemberDecorate", None, None, vec![Arg::IdRef(t), Arg::Lit32(0), Arg::Enum("Decoration", 35), Arg::Lit32(0)])),
+                        4 => n.secs[9].push(inst("DecorateString", None, None, vec![Arg::IdRef(t), Arg::Enum("Decoration", 5635), Arg::Str("s".into())])),
+                        5 => n.secs[9].push(inst("MemberDecorateString", None, None, vec![Arg::IdRef(t), Arg::Lit32(0), Arg::Enum("Decoration", 5635), Arg::Str("s".into())])),
+                        6 => n.secs[4].push(inst("EntryPoint", None, None, vec![Arg::Enum("ExecutionModel", 5), Arg::IdRef(t), Arg::Str("e".into()), Arg::IdRef(t)])),
+                        _ => n.secs[5].push(inst("ExecutionModeId", None, None, vec![Arg::IdRef(t), Arg::Enum("ExecutionMode", 38), Arg::IdRef(t), Arg::IdRef(t), Arg::IdRef(t)])),
+                    }
+                    Pred::Ok { snap: n, sel, fresh: None }
+                }
+                BOp::SelectByName(_) | BOp::SelectByText(_) => {
+                    let text = match op {
+                        BOp::SelectByName(k) => format!("f{}", k),
+                        BOp::SelectByText(j) => TEXTS[*j].to_string(),
+                        _ => unreachable!(),
+                    };
                     // the first OpName with that string whose target is the result id of some function's OpFunction
-                    let target = cur.secs[7].iter().filter(|i| i.name() == "Name" && i.args.get(1) == Some(&Arg::Str(format!("f{}", k)))).find_map(|i| match i.args.first() {
+                    let target = cur.secs[7].iter().filter(|i| i.name() == "Name" && i.args.get(1) == Some(&Arg::Str(text.clone()))).find_map(|i| match i.args.first() {
                         Some(Arg::IdRef(t)) => cur.fns.iter().position(|f| f.def.as_ref().and_then(|d| d.rid) == Some(*t)),
                         _ => None,
                     });
                     match target {
                         None => Pred::Fail,
-                        // which block stays selected is not fixed by the statement (only the invariant is): adopt it
-                        Some(idx) => Pred::Ok { snap: cur.clone(), sel: (Some(idx), now_sel.1), fresh: None },
+                        // selecting by name is selecting the function found: when that is ANOTHER function than the one
+                        // selected, no block of it has been selected by anybody, so none is (a block index taken over from
+                        // the function left behind would make the next terminator end a block nobody opened); when it is
+                        // the same function the block selection is not fixed by the statement: adopt it
+                        Some(idx) => Pred::Ok { snap: cur.clone(), sel: (Some(idx), if sf == Some(idx) { now_sel.1 } else { None }), fresh: None },
                     }
                 }
                 BOp::FindReturnBlocks => Pred::Ok { snap: cur.clone(), sel, fresh: None },
